@@ -91,6 +91,8 @@ func bucketClockScenario(c *sup.Ctx, r *rng.R) {
 	var mu sync.Mutex
 	var stamps []conc.CasStamp
 	perKey := map[string][]conc.CasStamp{}
+	futureImports := 0
+	imports := c.Local%3 == 2 // (in the other scenarios the scripted clock stays the only source of time)
 	var wg sync.WaitGroup
 	ctx := context.Background()
 	for wi := 0; wi < writers; wi++ {
@@ -120,6 +122,22 @@ func bucketClockScenario(c *sup.Ctx, r *rng.R) {
 					_ = col.SetWithMeta(ctx, fmt.Sprintf("foreign%d", wi), 0, uint64(1_600_000_000_000_000_000)+wr.U64()%100000, 0, nil, []byte(`{"f":2}`), sgbucket.FeedDataTypeJSON)
 				}
 				call := conc.Tick.Add(1)
+				if imports && wr.Intn(25) == 0 {
+					// a replicated version of this very key arrives with a CAS ten minutes ahead of everything seen so far:
+					// every later regular write of the key must still carry a larger CAS (the per-key order check below)
+					if _, cur, gerr := col.GetRaw(key); gerr == nil {
+						ahead := cur
+						if now := uint64(time.Now().UnixNano()); now > ahead {
+							ahead = now
+						}
+						ahead = (ahead+600e9)&^0xFFFF | uint64(0x8001+wr.Intn(0x7000))
+						if col.SetWithMeta(ctx, key, cur, ahead, 0, nil, body, sgbucket.FeedDataTypeJSON) == nil {
+							mu.Lock()
+							futureImports++
+							mu.Unlock()
+						}
+					}
+				}
 				switch wr.Intn(10) {
 				case 8:
 					err = col.Delete(key) // hands out a CAS (seen on the feed and in the stored tombstone) but does not return it
@@ -191,6 +209,7 @@ func bucketClockScenario(c *sup.Ctx, r *rng.R) {
 		return
 	}
 	c.Count("bucket_clock_runs", 1)
+	c.Count("imports_with_a_future_cas", int64(futureImports))
 	c.Count("cas_stamps_checked", int64(len(stamps)))
 	c.Cell(fmt.Sprintf("bucketclock|%s|buckets=%d|writers=%d", script.Class, nb, writers))
 	if msg, d := conc.CheckCasStamps(stamps); msg != "" {
